@@ -92,6 +92,10 @@ def rule_writer(ctx, R):
             if st_["k"] == "assign" and any(isinstance(e, dict) and e.get("n") == "pos" for e in st_["p"]["proj"]):
                 sets_.append((roles.of_origin(org.of_rvalue(st_["r"], bi_, si_)), bi_ in loop, st_["span"]["at"]))
     R.check(sets_ == [("K1", False, sets_[0][2])] if sets_ else False, "writer:magnitude", "the number that is divided down is the magnitude (its sign flag is set to non-negative once, before the loop): %s" % [(a, l) for a, l, _ in sets_], b.span)
+    # every text that is handed out comes from the division loop: no Ok result is built on a path around it
+    okb = [bi for bi, blk in enumerate(b.blocks) if not blk["cleanup"] for st in blk["stmts"] if st["k"] == "assign" and st["p"]["l"] == 0 and st["r"]["k"] == "agg" and st["r"].get("variant") == "Ok"]
+    heads_ = {h for _, h in cfg.back_edges()}
+    R.check(bool(okb) and not reaches_without(cfg, [0], okb, cut_blocks=[head]) and heads_ == {head}, "writer:one_route", "to_string_base has one way of producing text, the division loop (Ok results %d, loops %d): a second route for some bases would have to agree with the reader on its own" % (len(okb), len(heads_)), b.span)
     # the loop runs while the remaining number is not zero
     evw = Events(b, fb, roles=roles)
     stay, leave = [], []
@@ -241,6 +245,9 @@ def rule_reader(ctx, R):
             bad.append((ch, r))
     R.check(not bad, "reader:rejects", "characters outside 0-9A-Z (and '-' after index 0) are rejected with a parse error", b.span, bad[:6])
     R.check(run(0, ord("-")) == [("sign",)], "reader:sign_at_0", "'-' at index 0 is taken as the sign and consumes no digit", b.span, run(0, ord("-")))
+    okb = [bi for bi, blk in enumerate(b.blocks) if not blk["cleanup"] for st in blk["stmts"] if st["k"] == "assign" and st["p"]["l"] == 0 and st["r"]["k"] == "agg" and st["r"].get("variant") == "Ok"]
+    heads_ = {h for _, h in cfg.back_edges()}
+    R.check(bool(okb) and not reaches_without(cfg, [0], okb, cut_blocks=[head]) and heads_ == {head}, "reader:one_route", "from_string_base has one way of producing a number, the digit loop (Ok results %d, loops %d)" % (len(okb), len(heads_)), b.span)
     # accumulate: res *= base before res += digit; base = new(param)
     roles = Roles(b, fb, param_roles=PR(b))
     ok = len(adds) == 1 and len(muls) == 1 and not reaches_without(sub, [head], adds[0], cut_blocks=muls) and roles.of_operand(b.blocks[muls[0]]["term"]["args"][1], muls[0]) == "BigNum::new(P2)"
